@@ -69,6 +69,9 @@ CLAIMED = {
  "C19": ("bfs", "explicit-state breadth-first search over management/login/SSO histories with a reference model in lock-step, a restart (server re-created over a clone of the store) at every position, exhaustive single-fault injection at every store call of every transition, and live sequences on one long-lived server",
          "From an empty and a seeded store, every history of bounded depth over ~57 requests (users with/without password and cross-named bodies, two services x three metadata variants, shortcuts, logins with right/wrong/empty passwords and a hash-less user, SSO from two issuers with current/no/forged cookie or posted credentials, shortcut launch, session deletion, reads, clock advance) is executed on the real samlidp.Server; the model decides whether an assertion may be emitted, for whom and to which ACS; the registry after each request must equal that of a restarted server; each transition is repeated with a not-found and an I/O error at each store call: no assertion without right, no cookie or assertion for an unstored session, one status line, no hash disclosure, no panic.",
          "DESIGN.md §3 C19", "harness Store with sequential semantics; bcrypt cost lowered by the harness between requests (same passwords); hidden server state assumed to be the registry (checked) plus live sequences of length <= 3"),
+ "C20": ("sched", "stateless model checking of the implementation: preemption-bounded depth-first enumeration of goroutine schedules under a controlled scheduler (lock and store-operation granularity, sync rewritten by go build -overlay), linearizability checking of every recorded store history (porcupine), RWMutex model bound to sync by a conformance table, plus a separate free-running race-detector pass",
+         "Real samlidp handler goroutines over the real MemoryStore run one at a time under the harness scheduler; every schedule within the preemption bound of all 169 ordered handler pairs, selected triples and a 4-thread scenario is executed: no deadlock, every request exactly one reply, no panic (serial-order equivalence is reported as information only - the statement does not promise it). MemoryStore client programs on colliding keys (pre-populated and zero-value store) are explored under all / bounded schedules and every history is checked for linearizability against a map. The same scenario bodies then run free-running under `go build -race`.",
+         "DESIGN.md §3 C20", "scheduler model of sync.RWMutex/Mutex (conformance-checked against the real type); Go memory-model effects below lock granularity are left to the race detector in the free-running pass, which is not exhaustive over schedules"),
 }
 
 ALL = ["C%02d" % i for i in range(1, 21)]
@@ -97,7 +100,7 @@ def main():
         "setup_cmd": "./setup.sh",
         "hooks": {
             "guard": "verif-overlay",
-            "enable": "no hooks are committed to /repo: checks import /repo through a go.mod replace and C20 builds with `go build -overlay` generated from the working tree (see DESIGN.md §2.2)",
+            "enable": "no hooks are committed to /repo: checks import /repo through a go.mod replace; C20 builds with `go build -overlay <generated>` where tools/mkoverlay rewrites the \"sync\" import of the working tree's non-test files to the scheduler shim overlay/vsync.go.tmpl (see DESIGN.md §2.2); with the overlay off the tree is byte-identical to the committed one",
             "baseline_off_cmd": BASELINE_OFF,
             "source_commits": [],
             "add_only": True,
